@@ -5,4 +5,5 @@ let find (id : string) : sx -> sx =
   | "C11" -> model_C11
   | "C17" -> model_C17
   | "C16" -> model_C16
+  | "C14" -> model_C14
   | _ -> failwith ("no extracted model for " ^ id)
